@@ -151,6 +151,14 @@ func callAlphabet() []callSpec {
 			out = append(out, callSpec{[]nodeSpec{{"asset", u1}, {"asset", u2}}})
 		}
 	}
+	// a redirect target and, behind it on the same level, the asset of another document (two URLs of different classes)
+	for _, u1 := range []int{0, 5} {
+		for _, u2 := range []int{0, 3, 5} {
+			if u1 < len(urlAlpha) && u2 < len(urlAlpha) && urlAlpha[u1].Class != urlAlpha[u2].Class {
+				out = append(out, callSpec{[]nodeSpec{{"redirect", u1}, {"asset", u2}}})
+			}
+		}
+	}
 	return out
 }
 
@@ -202,6 +210,29 @@ func runCall(c callSpec, ns string) (built []bool, statuses []string) {
 		seed = models.NewItem(fmt.Sprintf("s%d", seqCounter), u, "")
 		nodes = []*models.Item{seed}
 	case "redirect":
+		if len(c.Nodes) == 2 {
+			// one level with a redirect target (of a first asset) followed by the asset of a second document
+			seed = models.NewItem(fmt.Sprintf("s%d", seqCounter), parentURL, "")
+			add := func(parent *models.Item, id, raw string, st models.ItemState) *models.Item {
+				u := &models.URL{Raw: raw}
+				if strings.Contains(id, "mid") {
+					if err := u.Parse(); err != nil {
+						panic(err)
+					}
+				}
+				it := models.NewItem(fmt.Sprintf("%s%d", id, seqCounter), u, "")
+				if err := parent.AddChild(it, st); err != nil {
+					panic(err)
+				}
+				return it
+			}
+			mid1 := add(seed, "mid1-", fmt.Sprintf("http://s.example/%s/mid1-%d", ns, seqCounter), models.ItemGotChildren)
+			ch1 := add(mid1, "c1-", mk(urlAlpha[c.Nodes[0].URL].Text).Raw, models.ItemGotRedirected)
+			mid2 := add(seed, "mid2-", fmt.Sprintf("http://s.example/%s/mid2-%d", ns, seqCounter), models.ItemGotChildren)
+			ch2 := add(mid2, "c2-", mk(urlAlpha[c.Nodes[1].URL].Text).Raw, models.ItemGotChildren)
+			nodes = []*models.Item{ch1, ch2}
+			break
+		}
 		seed = models.NewItem(fmt.Sprintf("s%d", seqCounter), parentURL, "")
 		ch := models.NewItem(fmt.Sprintf("c%d", seqCounter), mk(urlAlpha[c.Nodes[0].URL].Text), "")
 		if err := seed.AddChild(ch, models.ItemGotRedirected); err != nil {
@@ -224,7 +255,11 @@ func runCall(c callSpec, ns string) (built []bool, statuses []string) {
 		if n == seed {
 			attached = true
 		} else {
-			for _, ch := range seed.GetChildren() {
+			par := n.GetParent()
+			if par == nil {
+				par = seed
+			}
+			for _, ch := range par.GetChildren() {
 				if ch == n {
 					attached = true
 				}
